@@ -25,6 +25,8 @@ type Event struct {
 	Outcome string  `json:"outcome,omitempty"`
 	Where   string  `json:"where,omitempty"`
 	Spawn   []Event `json:"spawn,omitempty"` // events of a goroutine started here (straight-line)
+	Alts    []Event `json:"alts,omitempty"`  // default of a select: the cases none of which is ready
+	Sel     int     `json:"-"`
 }
 
 type eventState struct {
